@@ -96,8 +96,58 @@ def expr_tw(events, ident, secret):
 
 
 # ---- generators ------------------------------------------------------------------------------------------------
+def gen_aio_preauth_loss(rng):
+    """directed: connections that are accepted and lost BEFORE the handshake (no OP_INFO, or part of it), refused
+    attempts in between, application calls and close() at every stage of that (just lost / dialling / backing off)"""
+    import hpfeeds.protocol as P
+    ev = []
+    k = 0
+    if rng.random() < 0.7:
+        ev.append(['sub', jbytes(rng.choice(aiosess.TOPICS).encode())])
+    ev.append(['idle'])
+    stages = rng.randint(1, 3)
+    close_at = rng.randrange(0, stages * 4 + 2) if rng.random() < 0.8 else None
+    step = [0]
+
+    def tick():
+        if close_at is not None and step[0] == close_at:
+            ev.append(['close'])
+        step[0] += 1
+    for _ in range(stages):
+        tick()
+        while rng.random() < 0.4:
+            ev.append(['refuse'])
+            tick()
+            ev.append(['adv', rng.choice([1, 1, 2])])
+        ev.append(['ok'])
+        tick()
+        r = rng.random()
+        info = P.msginfo('hp', bytes(rng.randrange(256) for _ in range(4)))
+        if r < 0.4:
+            pass                                                    # lost before any byte
+        elif r < 0.75:
+            ev.append(['data', k, jbytes(info[:rng.randrange(1, len(info))])])   # lost inside OP_INFO
+        else:
+            ev.append(['data', k, jbytes(info)])                     # handshake done (control)
+        ev.append(['lost', k])
+        k += 1
+        tick()
+        if rng.random() < 0.5:
+            ev.append(['idle'])
+        while rng.random() < 0.5:
+            ev.append(['refuse'])
+            tick()
+            if rng.random() < 0.7:
+                ev.append(['adv', 1])
+    tick()
+    if close_at is not None and not any(e[0] == 'close' for e in ev):
+        ev.append(['close'])
+    ev.append(rng.choice([['idle'], ['adv', 1]]))
+    return ev
+
+
 def gen_aio(rng):
-    ev = aiosess.gen_events(rng)
+    ev = gen_aio_preauth_loss(rng) if rng.random() < 0.2 else aiosess.gen_events(rng)
     nconn = sum(1 for e in ev if e[0] == 'ok')
     # epilogue: every transport reports its loss, the loop runs, a second passes: close() must have completed by now,
     # and a session that was not closed must be dialling again
